@@ -395,6 +395,7 @@ func (x *Exec) registerLib() {
 		"(github.com/cosmos72/gomacro/xreflect.Type).Name",
 		"(github.com/cosmos72/gomacro/xreflect.Type).NumMethod",
 		"github.com/cosmos72/gomacro/xreflect.ZeroR",
+		"unicode/utf8.DecodeRuneInString",
 	} {
 		pureUF(n)
 	}
